@@ -388,6 +388,14 @@ func c06GenYAML(r *rand.Rand, c *c06Case) {
 	}
 	if len(docs) == 1 && docs[0].Kind == genc06.YScalar {
 		c.exp.Src = docs[0].Text
+		if docs[0].Spell == "tagged-quoted" {
+			// `!!bool "False"`: the raw value is the text between the quotes
+			t := docs[0].Text[strings.IndexByte(docs[0].Text, ' ')+1:]
+			c.exp.Src = t[1 : len(t)-1]
+			if c.exp.Src == "" {
+				c.exp.Src = "\x00empty" // `!!null ""` printed raw is the empty text
+			}
+		}
 	}
 	c.Input = genc06.YEmitStream(r, docs)
 	if !hasBlockScalar && r.IntN(5) == 0 {
@@ -1413,7 +1421,7 @@ func c06Judge(x c06Run, exp *c06Expect) c06Judgement {
 			return v("unwrapped top-level string: expected raw %q, observed %q", clipStr(w.S, 200), clipStr(out, 200))
 		}
 		t := strings.TrimSuffix(out, "\n")
-		if exp.Src != "" && t == exp.Src {
+		if exp.Src != "" && (t == exp.Src || (t == "" && exp.Src == "\x00empty")) {
 			return c06Judgement{verdict: mon.Held, detail: what + ": raw scalar equals its source spelling " + t}
 		}
 		// otherwise it must be some JSON spelling of the value: fall through
